@@ -652,7 +652,10 @@ def c14_ending_case(rng, i):
     numeric argument, character search): it is carried out as if typed outside; and a search ended by Tab starts a completion"""
     ct = ["circular", "list"][i % 2]
     ending = [["C-r", "c", "Enter"], ["C-r", "a", "C-r", "Right", "!"], ["C-s", "C-g", "z"], ["C-v", "C-a"], ["C-x", "C-u"], ["M-2", "x"],
-              ["C-]", "f"], ["C-r", "Tab", "Tab"], ["C-r", "f", "Tab"], ["M-2", "C-r", "o"]][i // 2 % 10]
+              ["C-]", "f"], ["C-r", "Tab", "Tab"], ["C-r", "f", "Tab"], ["M-2", "C-r", "o"],
+              # an abort while a candidate is shown (or the original has come round again), then undos: the aborted episode
+              # is not in the undo list
+              ["C-g", "C-_"], ["C-g", "C-_", "C-_"], ["C-g", "x", "C-_", "C-_"], ["C-g", "M-3", "C-_"]][i // 2 % 14]
     typed = rng.choice(["ls fo", "fo", "cd  f", "b"])
     tabs = ["Tab"] * rng.randint(1, 3)
     return Case(list(typed) + tabs + ending + ["Enter", "Enter"], mode="emacs", completion=ct, cands=["foo", "foobar", "food", "bar", "baz"],
@@ -663,6 +666,13 @@ def c14_cases(tier, seed):
     rng = random.Random(seed * 401 + 9)
     n = 4000 if tier == "thorough" else 260
     cases = []
+    # list mode over candidates that part INSIDE a character of 3 or 4 bytes after sharing two or three of its bytes: the common
+    # prefix is cut back to a character boundary (more than one byte back)
+    for i, cands in enumerate([["日本語", "日月"], ["東京都", "東京郊外"], ["\U0001F600a", "\U0001F601b"], ["é日本", "é日月x", "é日"],
+                               ["x\U0001F600", "x\U0001F680"]]):
+        for mode in ("emacs", "vi"):
+            cases.append(Case([cands[0][0], "Tab", rng.choice(["Tab", "x", "C-g"]), "Enter"], mode=mode, completion="list", cands=cands,
+                              timeout=0 if mode == "vi" else "none", prompt="> ", cols=80))
     for _ in range(n):
         mode = rng.choice(["emacs", "emacs", "vi"])
         ct = rng.choice(["circular", "circular", "list"])
